@@ -479,32 +479,33 @@ def _class_crossref(variant):
     import hdl21 as h
     import hdl21.sim as hs
 
+    variant, _, pre = variant.partition("/")  # the class keys may start with underscores: only the bare `_` is a throw-away name
     try:
         tb = mk_tb(h, hs, "ok", "Tb")
         xp = hs.Param(val=5)
         tr = hs.Tran(tstop=1)
-        ns = dict(tb=tb, x=xp, mytran=tr)
+        ns = {"tb": tb, pre + "x": xp, pre + "mytran": tr}
         if variant == "dc":
-            ns["mydc"] = hs.Dc(var=xp, sweep=hs.LinearSweep(0, 1, 1))
+            ns[pre + "mydc"] = hs.Dc(var=xp, sweep=hs.LinearSweep(0, 1, 1))
         elif variant == "sweep":
-            ns["mysw"] = hs.SweepAnalysis(inner=[tr], var=xp, sweep=hs.LinearSweep(0, 1, 1))
+            ns[pre + "mysw"] = hs.SweepAnalysis(inner=[tr], var=xp, sweep=hs.LinearSweep(0, 1, 1))
         else:
-            ns["mymc"] = hs.MonteCarlo(inner=[tr, hs.Op()], npts=2)
+            ns[pre + "mymc"] = hs.MonteCarlo(inner=[tr, hs.Op()], npts=2)
         inp = hs.to_proto(hs.sim(type("CrossSim", (), ns)))
         pars = [c.param.name for c in inp.ctrls if c.WhichOneof("ctrl") == "param"]
-        if pars != ["x"]:
+        if pars != [pre + "x"]:
             return f"parameter controls exported as {pars}, the class body calls it 'x'"
         tops = [_all_names(a, []) for a in inp.an]
-        if tops[0] != ["mytran"]:
+        if tops[0] != [pre + "mytran"]:
             return f"the analysis bound to `mytran` is exported as {tops[0]}"
         if variant == "dc":
-            if inp.an[1].dc.indep_name != "x":
+            if inp.an[1].dc.indep_name != pre + "x":
                 return f"Dc over the Param bound to `x` sweeps {inp.an[1].dc.indep_name!r}"
         elif variant == "sweep":
-            if inp.an[1].sweep.variable != "x" or tops[1][1:] != ["mytran"]:
+            if inp.an[1].sweep.variable != pre + "x" or tops[1] != [pre + "mysw", pre + "mytran"]:
                 return f"the sweep over `x` with inner analysis `mytran` is exported with variable {inp.an[1].sweep.variable!r} and inner names {tops[1][1:]}"
         else:
-            if tops[1][1] != "mytran" or len(set(tops[1])) != len(tops[1]):
+            if tops[1][:2] != [pre + "mymc", pre + "mytran"] or len(set(tops[1])) != len(tops[1]):
                 return f"the Monte Carlo with inner analysis `mytran` is exported with inner names {tops[1][1:]}"
     except Exception as e:
         return "raised: " + short_exc(e)
@@ -597,7 +598,7 @@ def run(ctx):
         ctx.fam("shared_unnamed_analysis", cases=1)
         if r:
             ctx.violation(dict(style="-", what="shared unnamed analysis: " + r[:40], save_target=""), dict(shared_unnamed=v), r)
-    for v in ("dc", "sweep", "monte"):
+    for v in [k + "/" + pre for k in ("dc", "sweep", "monte") for pre in ("", "_", "__", "_1")]:
         r = _class_crossref(v)
         ctx.count(states=1, transitions=2, traces_validated_against_impl=1)
         ctx.fam("class_body_cross_references", cases=1)
